@@ -60,6 +60,7 @@ type CheckSpec struct {
 	StubPkgs    []string          `json:"stub_pkgs"`
 	Models      map[string]string `json:"models"`
 	Generated   map[string]string `json:"generated"` // virtual path -> generator name
+	ZeroStubs   []string          `json:"zero_stubs"` // functions replaced by "return zero values" (formatting / logging helpers)
 	SkipInit    []string          `json:"skip_init"`  // packages whose initialiser is not run (globals stay zero)
 }
 
@@ -320,6 +321,10 @@ func cmdCheck(args []string) int {
 		eng.cfg.Crosscheck = true
 	}
 	eng.stubPkgs = append([]string{"go.uber.org/zap", "go.uber.org/zap/zapcore"}, cs.StubPkgs...)
+	eng.zeroStubs = map[string]bool{}
+	for _, f := range cs.ZeroStubs {
+		eng.zeroStubs[f] = true
+	}
 	eng.skipInitPkgs = map[string]bool{}
 	for _, p := range cs.SkipInit {
 		eng.skipInitPkgs[p] = true
